@@ -535,3 +535,24 @@ func isErrorType(t types.Type) bool {
 	n, ok := t.(*types.Named)
 	return ok && n.Obj().Pkg() == nil && n.Obj().Name() == "error"
 }
+
+// retResult resolves the i-th result of a Return, looking through the result spill that
+// go/ssa introduces in functions with defers (`*t0 = v; rundefers; t = *t0; return t`).
+func retResult(ret *ssa.Return, i int) ssa.Value {
+	v := ret.Results[i]
+	u, ok := v.(*ssa.UnOp)
+	if !ok || u.Op != token.MUL {
+		return v
+	}
+	al, ok := u.X.(*ssa.Alloc)
+	if !ok {
+		return v
+	}
+	instrs := ret.Block().Instrs
+	for k := len(instrs) - 1; k >= 0; k-- {
+		if st, ok := instrs[k].(*ssa.Store); ok && st.Addr == ssa.Value(al) {
+			return st.Val
+		}
+	}
+	return v
+}
